@@ -179,7 +179,7 @@ def run(ctx):
                   "each table's next state is looked up with its own code and current state", observed=sorted(nexts.values()))
         # the loop walks the sequences backwards from the second to last
         it = pv(loop[0]["iter"])
-        ctx.check(it.endswith("Iterator::rev(0..=(core::slice::len($0) - 2))"), RO, "encode_sequences::backwards", b["file"],
+        ctx.check(it.endswith(("Iterator::rev(0..=(core::slice::len($0) - 2))", "Iterator::rev(..=(core::slice::len($0) - 2))")), RO, "encode_sequences::backwards", b["file"],
                   "sequences are encoded from the second to last down to the first", observed=it)
         # table descriptions LL, OF, ML
         cb = ctx.hir(ENC + "::compress_block")
@@ -238,7 +238,7 @@ def run(ctx):
         cix = hq.Index(cb)
         rep = [x for x in hq.find(cb["body"], lambda x: x.get("k") == "MethodCall" and x["name"] == "replace" and
                                   hq.field_chain(x["recv"])[1][-1:] == ["last_huff_table"])]
-        ok = len(rep) == 1 and any("compress_literals" in c and "Some(" in c for c in dom.conds(cix, rep[0]))
+        ok = len(rep) == 1 and any("compress_literals" in c and ("Some(" in c or c.startswith("some(")) for c in dom.conds(cix, rep[0]))
         ctx.check(ok, RH, "compress_block::remembers-only-written-table", cb["file"], "the table is remembered only when compress_literals returned it")
         lb = ctx.hir(ENC + "::compress_literals")
         lix = hq.Index(lb)
